@@ -105,6 +105,10 @@ func errGated(c *Check, rule string, callee string, what string) int {
 								withErr = true
 							}
 						}
+						// ... or together with an error that was just constructed (a wrapped message)
+						if n := len(ret.Results); n > 0 && isErrorCtor(ret.Results[n-1]) {
+							withErr = true
+						}
 						if withErr {
 							continue
 						}
